@@ -6,7 +6,7 @@ from lib import common, rstage, gen
 from lib.vals import *
 
 THEOREMS = ["C16_schema_independent_of_context", "C16_print_preserves_context_invariant", "C16_collected_ref_is_noop",
-            "C16_order_independent_example"]
+            "C16_order_independent_example", "C16_every_ref_resolves_in_the_final_export", "C16_refs_nonvacuous"]
 IMPORTS = "From Beff Require Import Model.Cases."
 
 
@@ -15,6 +15,8 @@ def refs_in(j, acc):
         for k, v in j.items():
             if k == "$ref" and isinstance(v, str):
                 acc.add(v)
+            elif k == "discriminator" and isinstance(v, dict) and isinstance(v.get("mapping"), dict):
+                acc.update(x for x in v["mapping"].values() if isinstance(x, str))      # mapping targets are references too (sref)
             else:
                 refs_in(v, acc)
     elif isinstance(j, list):
@@ -70,6 +72,80 @@ def histories(seed, n, quick):
     return out
 
 
+TEMPLATES = ["#/components/schemas/{name}", "#/$defs/{name}", "{name}", "defs.json#/{name}/{name}", "#/d/$&/{name}", "#/definitions/{name}.json"]
+
+
+def configure(h, r):
+    """settings of the context (template, container key, overrides) and hostile names for some named types"""
+    names = [k for k, _ in h["env"]]
+    if names and r.random() < 0.3:
+        h["env"], h["rts"] = rstage.hostile_names(r, h["env"], h["rts"])
+        names = [k for k, _ in h["env"]]
+    h["template"] = r.choice(TEMPLATES) if r.random() < 0.4 else TEMPLATES[0]
+    h["container"] = r.choice(["$defs", "components", "__proto__"]) if r.random() < 0.25 else None
+    h["overrides"] = []
+    if names and r.random() < 0.25:
+        cand = [i for i, x in enumerate(h["rts"]) if x[0] != "Ref"]
+        for n in r.sample(names, r.randrange(1, min(2, len(names)) + 1)):
+            if cand: h["overrides"].append((n, r.choice(cand)))
+    return h
+
+
+def conf_coq(h):
+    return "{| ref_template := %s; container_key := %s; overrides := %s |}" % (
+        coq_str(h["template"]), "None" if h["container"] is None else "(Some %s)" % coq_str(h["container"]),
+        coq_list("(%s, %s)" % (coq_str(n), rt_coq(h["rts"][i])) for n, i in h["overrides"]))
+
+
+def ctx_op(h, calls):
+    op = {"op": "ctxseq", "calls": calls, "fresh": True, "template": h["template"]}
+    if h["container"] is not None: op["container"] = h["container"]
+    if h["overrides"]: op["overrides"] = {n: i for n, i in h["overrides"]}
+    return op
+
+
+def defs_of(h, exported):
+    return exported if h.get("container") is None else exported.get(h["container"], {})
+
+
+def resolves(h, ref, defs):
+    t = h.get("template", TEMPLATES[0])
+    return any(t.replace("{name}", n, 1) == ref for n in defs)
+
+
+def judge(h, a, b, throwing):
+    """C16 on the implementation alone: a = the history, b = its permutation (both with the fresh-context oracle)."""
+    problems = []
+    for tag, res, calls in (("history", a, h["calls"]), ("permuted", b, h["perm"])):
+        defs = defs_of(h, res["raw"]["defs"])
+        expected = {}
+        for idx in set(calls):
+            fr = res["fresh"][str(idx)]
+            if "error" in fr:
+                continue
+            for name, body in defs_of(h, fr["defs"]).items():
+                expected.setdefault(name, body)
+                if name in defs and canon(defs[name]) != canon(body):
+                    problems.append("%s: definition %s differs from the one a fresh context prints for parser %d" % (tag, name, idx))
+                if name not in defs:
+                    problems.append("%s: definition %s (needed by parser %d) missing from the export" % (tag, name, idx))
+        # every $ref of every returned schema and every definition resolves
+        refs = set()
+        for o in res["raw"]["outs"]:
+            if not (isinstance(o, dict) and "__error" in o):
+                refs_in(o, refs)
+        refs_in(defs, refs)
+        for ref in refs:
+            if not resolves(h, ref, defs):
+                problems.append("%s: dangling $ref %s" % (tag, ref))
+        for name, body in defs.items():
+            if body == {} and canon(expected.get(name, None)) != "{}":
+                problems.append("%s: definition %s left empty" % (tag, name))
+    if canon(a["raw"]["defs"]) != canon(b["raw"]["defs"]) and not throwing:
+        problems.append("export differs between the history and its permutation")
+    return problems
+
+
 def check(run):
     ok = run.prove("Props.C16", THEOREMS, ["Props/C16.vo"])
     common.ensure_harness()
@@ -81,10 +157,11 @@ def check(run):
         perm = list(h["calls"])
         rnd.shuffle(perm)
         h["perm"] = perm + perm[: rnd.randrange(0, 3)]
-        ops = [{"op": "ctxseq", "calls": h["calls"], "fresh": True}, {"op": "ctxseq", "calls": h["perm"], "fresh": True}]
+        configure(h, rnd)
+        ops = [ctx_op(h, h["calls"]), ctx_op(h, h["perm"])]
         jobs.append({"id": i, "env": env_json(h["env"]), "rts": [rt_json(x) for x in h["rts"]], "ops": ops})
-        exprs.append("run_ctxseq %s default_conf %s %s" % (env_coq(h["env"]), coq_list(rt_coq(x) for x in h["rts"]),
-                                                             coq_list(str(k) for k in h["calls"])))
+        exprs.append("run_ctxseq %s %s %s %s" % (env_coq(h["env"]), conf_coq(h), coq_list(rt_coq(x) for x in h["rts"]),
+                                                   coq_list(str(k) for k in h["calls"])))
     js = common.run_driver(jobs)
     cq = common.run_coq_cases(IMPORTS, exprs, tag="C16")
     disagree, fails, in_known = [], [], collections.Counter()
@@ -95,7 +172,8 @@ def check(run):
         a, b = json.loads(out[0]), json.loads(out[1])
         model = cq[i]
         line = a["line"]
-        desc = {"env": repr(h["env"]), "parsers": [repr(x) for x in h["rts"]], "calls": h["calls"]}
+        desc = {"env": repr(h["env"]), "parsers": [repr(x) for x in h["rts"]], "calls": h["calls"],
+                "template": h["template"], "container": h["container"], "overrides": h["overrides"]}
         throwing = any(isinstance(o, dict) and "__error" in o for o in a["raw"]["outs"])
         if "<after-throw>" in model:
             pa, pb = line.split(" ==> ")[0].split(" ;; "), model.split(" ==> ")[0].split(" ;; ")
@@ -105,35 +183,7 @@ def check(run):
         elif line != model:
             disagree.append(dict(desc, impl=line[:500], model=model[:500]))
         # ---- the property, judged on the implementation alone
-        problems = []
-        for tag, res, calls in (("history", a, h["calls"]), ("permuted", b, h["perm"])):
-            defs = res["raw"]["defs"]
-            expected = {}
-            for idx in set(calls):
-                fr = res["fresh"][str(idx)]
-                if "error" in fr:
-                    continue
-                for name, body in fr["defs"].items():
-                    expected.setdefault(name, body)
-                    if name in defs and canon(defs[name]) != canon(body):
-                        problems.append("%s: definition %s differs from the one a fresh context prints for parser %d" % (tag, name, idx))
-                    if name not in defs:
-                        problems.append("%s: definition %s (needed by parser %d) missing from the export" % (tag, name, idx))
-            # every $ref of every returned schema and every definition resolves
-            refs = set()
-            for o in res["raw"]["outs"]:
-                if not (isinstance(o, dict) and "__error" in o):
-                    refs_in(o, refs)
-            refs_in(defs, refs)
-            for ref in refs:
-                name = ref.split("/")[-1]
-                if name not in defs:
-                    problems.append("%s: dangling $ref %s" % (tag, ref))
-            for name, body in defs.items():
-                if body == {} and canon(expected.get(name, None)) != "{}":
-                    problems.append("%s: definition %s left empty" % (tag, name))
-        if canon(a["raw"]["defs"]) != canon(b["raw"]["defs"]) and not throwing:
-            problems.append("export differs between the history and its permutation")
+        problems = judge(h, a, b, throwing)
         if throwing:
             n_throw_hist += 1
         else:
@@ -162,22 +212,21 @@ def check(run):
         "Model/Schema.v (schema() of every class, SchemaPrintingContext) tied to codegen-v2.ts by comparing every returned schema and "
         "the final export of each history; after a throwing call the model stops (the state after a throw is not modelled)",
         "tsstrip, Node driver; JSON compared up to key order",
-        "named-type overrides and non-default ref templates are not exercised by the generated histories"]
+        "contexts are configured with generated ref templates (including ones without or with two {name} holes and with $-patterns), "
+        "container keys, named-type overrides and named types called like Object.prototype members or containing '$'"]
     for k in known:
         w = eval(k["witness"], {"__builtins__": {}}, {"None": None, "True": True, "False": False})
+        w.setdefault("template", TEMPLATES[0]); w.setdefault("container", None); w.setdefault("overrides", [])
+        w["perm"] = list(reversed(w["calls"]))
         out = common.run_driver([{"id": 0, "env": env_json(w["env"]), "rts": [rt_json(x) for x in w["rts"]],
-                                  "ops": [{"op": "ctxseq", "calls": w["calls"], "fresh": True}]}])[0]
-        res = json.loads(out[0])
-        refs = refs_in(res["raw"]["defs"], set())
-        for o in res["raw"]["outs"]:
-            if not (isinstance(o, dict) and "__error" in o):
-                refs_in(o, refs)
-        dangling = [x for x in refs if x.split("/")[-1] not in res["raw"]["defs"]]
+                                  "ops": [ctx_op(w, w["calls"]), ctx_op(w, w["perm"])]}])[0]
+        wa, wb = json.loads(out[0]), json.loads(out[1])
+        dangling = judge(w, wa, wb, any(isinstance(o, dict) and "__error" in o for o in wa["raw"]["outs"]))
         if k.get("kind") == "known" and dangling:
             run.known("class=%s %s" % (k["class"], k["what"]))
             cov["known_findings_reproduced"].append(k["class"])
         if k.get("kind") == "fixed" and dangling:
-            run.violation("fixed-finding-returned-" + k["class"], {"witness": k["witness"], "dangling": dangling})
+            run.violation("fixed-finding-returned-" + k["class"], {"witness": k["witness"], "problems": dangling[:6]})
     if not ok:
         run.violation("proof", {"what": run.proof_broken, "theorems": THEOREMS}, no_input=not fails)
     for i, (kind, payload) in enumerate(fails[:5]):
